@@ -103,13 +103,13 @@ Section Run.
         let (h1, s) := store_new h in
         match data, store_data h1 (VR s) with
         | Some i, Some d => if truthy h1 (env_get e i)
-                            then bindv (store_add vt W FUEL d (env_get e i) h1) (fun _ h2 => (h2, RVal (VR s)))
+                            then bindv (store_add_top vt W d (env_get e i) h1) (fun _ h2 => (h2, RVal (VR s)))
                             else (h1, RVal (VR s))
         | _, _ => (h1, RVal (VR s))
         end
     | OStoreAdd s a =>
         match store_data h (env_get e s) with
-        | Some d => store_add vt W FUEL d (env_get e a) h
+        | Some d => store_add_top vt W d (env_get e a) h
         | None => (h, RExc "TypeError")
         end
     | OStoreGet s id =>
